@@ -195,6 +195,7 @@ func main() {
 		}
 	}
 	sort.Strings(names)
+	detectLoopVarSemantics(srcDir)
 	typeCheck(srcDir, names)
 	rep := map[string]string{}
 	for _, n := range names {
@@ -675,6 +676,18 @@ func (r *rw) mapRange(x *ast.RangeStmt, keyS string) []ast.Stmt {
 			tok = x.Tok
 		}
 	}
+	// Loop variables: before Go 1.22 (the language version of the module decides) a range statement
+	// with := has ONE key and ONE value variable for the whole loop, and closures made in the body
+	// share them; the rewritten loop keeps that (sharedLoopVars) by declaring both in front of the
+	// loop.  The value variable gets its type from an index expression (v := m[k]).
+	var pre []ast.Stmt
+	if sharedLoopVars && tok == token.DEFINE {
+		if id, ok := kid.(*ast.Ident); ok {
+			pre = append(pre, &ast.DeclStmt{Decl: &ast.GenDecl{Tok: token.VAR, Specs: []ast.Spec{&ast.ValueSpec{Names: []*ast.Ident{id}, Type: keyT}}}})
+			pre = append(pre, &ast.AssignStmt{Lhs: []ast.Expr{ast.NewIdent("_")}, Tok: token.ASSIGN, Rhs: []ast.Expr{id}})
+			tok = token.ASSIGN
+		}
+	}
 	body := []ast.Stmt{
 		&ast.AssignStmt{Lhs: []ast.Expr{kid}, Tok: tok, Rhs: []ast.Expr{&ast.TypeAssertExpr{X: ki, Type: keyT}}},
 	}
@@ -685,6 +698,14 @@ func (r *rw) mapRange(x *ast.RangeStmt, keyS string) []ast.Stmt {
 		if id, ok := x.Value.(*ast.Ident); !ok || id.Name != "_" {
 			vid = x.Value
 			vtok = x.Tok
+		}
+	}
+	if sharedLoopVars && vtok == token.DEFINE {
+		if id, ok := vid.(*ast.Ident); ok {
+			zeroKey := &ast.StarExpr{X: call(ast.NewIdent("new"), keyT)}
+			pre = append(pre, &ast.AssignStmt{Lhs: []ast.Expr{id}, Tok: token.DEFINE, Rhs: []ast.Expr{&ast.IndexExpr{X: m, Index: zeroKey}}})
+			pre = append(pre, &ast.AssignStmt{Lhs: []ast.Expr{ast.NewIdent("_")}, Tok: token.ASSIGN, Rhs: []ast.Expr{id}})
+			vtok = token.ASSIGN
 		}
 	}
 	if vtok == token.DEFINE {
@@ -704,10 +725,36 @@ func (r *rw) mapRange(x *ast.RangeStmt, keyS string) []ast.Stmt {
 	}
 	body = append(body, x.Body.List...)
 	loop := &ast.RangeStmt{Key: ast.NewIdent("_"), Value: ki, Tok: token.DEFINE, X: call(vs("MapKeys"), m), Body: &ast.BlockStmt{List: body}}
-	return []ast.Stmt{&ast.BlockStmt{List: []ast.Stmt{
-		&ast.AssignStmt{Lhs: []ast.Expr{m}, Tok: token.DEFINE, Rhs: []ast.Expr{x.X}},
-		loop,
-	}}}
+	out := []ast.Stmt{&ast.AssignStmt{Lhs: []ast.Expr{m}, Tok: token.DEFINE, Rhs: []ast.Expr{x.X}}}
+	out = append(out, pre...)
+	out = append(out, loop)
+	return []ast.Stmt{&ast.BlockStmt{List: out}}
+}
+
+// sharedLoopVars: the source module's language version is below 1.22 (read from its go.mod; a
+// directory without go.mod is taken as old).
+var sharedLoopVars = true
+
+func detectLoopVarSemantics(srcDir string) {
+	b, err := os.ReadFile(filepath.Join(srcDir, "go.mod"))
+	if err != nil {
+		return
+	}
+	for _, l := range strings.Split(string(b), "\n") {
+		f := strings.Fields(l)
+		if len(f) == 2 && f[0] == "go" {
+			p := strings.Split(f[1], ".")
+			if len(p) >= 2 {
+				maj, _ := strconv.Atoi(p[0])
+				min, _ := strconv.Atoi(p[1])
+				sharedLoopVars = maj < 1 || (maj == 1 && min < 22)
+			}
+		}
+	}
+	stats["shared_loop_vars"] = 0
+	if sharedLoopVars {
+		stats["shared_loop_vars"] = 1
+	}
 }
 
 // sel rewrites a select statement into
